@@ -4,12 +4,14 @@
 set -e
 cd "$(dirname "$0")"
 export GOFLAGS=-mod=mod GOPROXY=off GOSUMDB=off GOTOOLCHAIN=local CGO_ENABLED=0
-cp /repo/go.sum harness/go.sum
+REPO="${VERIF_REPO:-/repo}"
+cp "$REPO/go.sum" harness/go.sum
+if [ "$REPO" != /repo ]; then (cd harness && go mod edit -replace go.brendoncarroll.net/p2p="$REPO"); fi
 mkdir -p harness/bin .work evidence replays
 ./harness/evilssh_src/gen.sh
 (cd harness && go build -tags verif -o bin/ ./cmd/...)
 mkdir -p lean/P2PVerif/Gen
-./harness/bin/extract -repo /repo > lean/P2PVerif/Gen/Facts.lean.new
+./harness/bin/extract -repo "$REPO" > lean/P2PVerif/Gen/Facts.lean.new
 if ! cmp -s lean/P2PVerif/Gen/Facts.lean.new lean/P2PVerif/Gen/Facts.lean 2>/dev/null; then mv lean/P2PVerif/Gen/Facts.lean.new lean/P2PVerif/Gen/Facts.lean; else rm lean/P2PVerif/Gen/Facts.lean.new; fi
 (cd lean && lake build)
 echo setup-ok
